@@ -391,6 +391,13 @@ def runOp (op : String) (args : List String) : String :=
   | "spec.zone", args => zoneOp true args
   | "codec.pack", typ :: vals => codecPack typ vals
   | "codec.unpack", [typ, rd] => codecUnpack typ rd
+  | "lex", [t] => match unhex t with
+    | some b =>
+      let toks := Lex.lexAll b
+      if toks.isEmpty then "-" else
+      " ".intercalate (toks.map (fun (tk, c) =>
+        s!"{tk.value},{hex tk.token},{tk.torc},{if tk.err then 1 else 0},{tk.line},{tk.column},{hex c}"))
+    | none => "bad-op"
   | "txt.escape", [t] => match unhex t with
     | some b => hex (txtEscape b) | none => "bad-op"
   | "txt.unescape", [t] => match unhex t with
